@@ -114,11 +114,11 @@ def run_replay_file(pid, path, work, log):
     shutil.rmtree(rov, ignore_errors=True)
     shutil.rmtree(rgen, ignore_errors=True)
     try:
-        ov.make_overlay(rov, real_memchr=True)
+        ov.make_overlay(rov, modules=[module], real_memchr=True)
     except ov.OverlayError as e:
         return False, "replay overlay: %s" % e, []
     os.makedirs(rgen)
-    for mname in ("patch", "parser", "writer", "lines", "parallel", "common"):
+    for mname in ("patch", "patchpriv", "parser", "writer", "lines", "parallel", "common"):
         with open(os.path.join(rgen, "%s_inst.rs" % mname), "w") as f:
             if mname == module:
                 # stubs are a solver-side device: the native run uses the real functions
